@@ -591,10 +591,30 @@ def form_specs(draw, profile=None):
         sid = gen_subdomain_id(draw, pr)
         e = gen_integrand(g, m, pr["depth"])
         spec["integrals"].append({"m": m, "id": sid, "md": md, "e": e})
+    # form-level transformation (C05: coefficients that drop out of the compiled form)
+    if arity <= 1 and coefs and draw(st.floats(0, 1)) < pr.get("p_derivative", 0.0):
+        used = sorted({k for I in spec["integrals"] for k in _coefs_in(I["e"])})
+        if used:
+            spec["transform"] = ["derivative", draw(st.sampled_from(used))]
+            g.features.add("transform:derivative")
+    if pr.get("shuffle_decl") and draw(st.booleans()):
+        names = [f"f{k}" for k in range(len(coefs))] + [f"c{k}" for k in range(len(consts))]
+        spec["order"] = list(draw(st.permutations(names)))
     spec["_tags"] = sorted(set(tags))
     spec["_features"] = sorted(g.features)
     spec["data_seed"] = draw(st.integers(0, 2**31 - 1))
     return spec
+
+
+def _coefs_in(t, acc=None):
+    acc = set() if acc is None else acc
+    if isinstance(t, list):
+        if len(t) == 2 and t[0] == "f" and isinstance(t[1], int):
+            acc.add(t[1])
+        for a in t:
+            if isinstance(a, list):
+                _coefs_in(a, acc)
+    return acc
 
 
 def spec_classes(spec):
@@ -606,7 +626,7 @@ def spec_classes(spec):
     out += [f"measure:{m}" for m in sorted({i['m'] for i in spec["integrals"]})]
     out.append(f"nintegrals:{len(spec['integrals'])}")
     for f in spec.get("_features", []):
-        if f.startswith(("fun:", "op:", "geo:", "L:", "restr:")) or f in ("split", "tensor-coefficient"):
+        if f.startswith(("fun:", "op:", "geo:", "L:", "restr:", "transform:")) or f in ("split", "tensor-coefficient"):
             out.append(f)
     return out
 
